@@ -4,7 +4,9 @@ package main
 
 import (
 	"bytes"
+	"crypto/elliptic"
 	"fmt"
+	"math/big"
 	"strconv"
 	"strings"
 
@@ -127,6 +129,7 @@ type c32Sess struct {
 type c32Runner struct {
 	all      []*c32Sess
 	cur      int
+	badParam bool // the secure-stage message being delivered carries an invalid SecureParam
 	started  bool
 	existing []c32Existing // peers of this case that were handed over and stay connected
 	prev     []byte        // secret of the previous session of this case
@@ -228,6 +231,45 @@ func (r *c32Runner) sig(tok string) ([]byte, c32SigInfo, bool) {
 		}
 	}
 	return nil, info, false
+}
+
+// c32Param: SecureParam for a token. "ok" = the simulated remote's ephemeral key; all others
+// must be rejected: junk, and well-sized encodings of things that are not points of P-256.
+func c32Param(tok string, remote []byte) ([]byte, bool) {
+	P := elliptic.P256().Params().P
+	pt := func(x, y *big.Int) []byte {
+		b := make([]byte, 65)
+		b[0] = 4
+		x.FillBytes(b[1:33])
+		y.FillBytes(b[33:65])
+		return b
+	}
+	rx := new(big.Int).SetBytes(remote[1:33])
+	ry := new(big.Int).SetBytes(remote[33:65])
+	switch tok {
+	case "ok":
+		return remote, true
+	case "bad":
+		return []byte{0}, true
+	case "z0":
+		return pt(big.NewInt(0), big.NewInt(0)), true
+	case "oc":
+		y := new(big.Int).Add(ry, big.NewInt(1))
+		if y.Cmp(P) >= 0 {
+			y.Sub(ry, big.NewInt(1))
+		}
+		return pt(rx, y), true
+	case "xp":
+		return pt(P, ry), true
+	case "yp":
+		return pt(rx, new(big.Int).Add(P, big.NewInt(1))), true
+	case "sm":
+		return remote[:64], true
+	case "c2":
+		b := append([]byte{2 | byte(ry.Bit(0))}, remote[1:33]...)
+		return b, true
+	}
+	return nil, false
 }
 
 func c32NatList(s string) ([]int, bool) {
@@ -353,6 +395,12 @@ func (r *c32Runner) deliver(o *Oracle, sub uint16, payload []byte, what string, 
 	own := si.content == "t" || si.content == fmt.Sprintf("x%d", r.cur)
 	proof := isSig && pubKey >= 0 && si.key == pubKey && own && !errFlag
 	r.checkSecrets(o)
+	if (what == "secreq" || what == "secresp") && r.badParam && inSeq {
+		cl, _, _, _, _, _, _ := r.s.State()
+		o.Check(cl, "c32-invalid-secure-param-accepted", "a SecureParam that is not a valid P-256 point was accepted: %s", out)
+		o.Count("invalid-param")
+	}
+	r.badParam = false
 	if handed {
 		r.curKey = pubKey
 		r.all[r.cur].curKey = pubKey
@@ -436,6 +484,14 @@ func (r *c32Runner) checkSecrets(o *Oracle) {
 		}
 		o.Check(bytes.Equal(e.snap, x), "c32-session-secret-changed",
 			"session %d: secret was %x right after its secure stage, is %x now", i, e.snap, x)
+	}
+	for i, e := range r.all {
+		for j := 0; j < i; j++ {
+			if e.snap != nil && r.all[j].snap != nil {
+				o.Check(!bytes.Equal(e.snap, r.all[j].snap), "c32-sessions-share-secret",
+					"sessions %d and %d derived the same secret %x", j, i, e.snap)
+			}
+		}
 	}
 }
 
@@ -574,7 +630,8 @@ func (r *c32Runner) Step(t []string, o *Oracle) string {
 		}
 		ss, ok1 := c32NatList(t[1])
 		as, ok2 := c32NatList(t[2])
-		if !ok1 || !ok2 || (t[3] != "ok" && t[3] != "bad") {
+		prm, okp := c32Param(t[3], r.s.RemoteParam())
+		if !ok1 || !ok2 || !okp {
 			return "bad-op"
 		}
 		m := &network.SecureRequest{Channel: network.VerifC32Channel, SecureParam: []byte{0}}
@@ -584,9 +641,8 @@ func (r *c32Runner) Step(t []string, o *Oracle) string {
 		for _, v := range as {
 			m.SecureAeadSuites = append(m.SecureAeadSuites, network.SecureAeadSuite(v))
 		}
-		if t[3] == "ok" {
-			m.SecureParam = r.s.RemoteParam()
-		}
+		m.SecureParam = prm
+		r.badParam = t[3] != "ok"
 		return r.deliver(o, 0x0100, codec.MP.MustMarshalToBytes(m), "secreq", -1, c32SigInfo{key: -1}, false)
 	case "secresp":
 		if len(t) != 5 || r.s == nil {
@@ -594,14 +650,14 @@ func (r *c32Runner) Step(t []string, o *Oracle) string {
 		}
 		su, e1 := strconv.ParseUint(t[1], 10, 8)
 		ae, e2 := strconv.ParseUint(t[2], 10, 8)
-		if e1 != nil || e2 != nil || (t[3] != "ok" && t[3] != "bad") || (t[4] != "0" && t[4] != "1") {
+		prm, okp := c32Param(t[3], r.s.RemoteParam())
+		if e1 != nil || e2 != nil || !okp || (t[4] != "0" && t[4] != "1") {
 			return "bad-op"
 		}
 		m := &network.SecureResponse{Channel: network.VerifC32Channel, SecureSuite: network.SecureSuite(su),
 			SecureAeadSuite: network.SecureAeadSuite(ae), SecureParam: []byte{0}}
-		if t[3] == "ok" {
-			m.SecureParam = r.s.RemoteParam()
-		}
+		m.SecureParam = prm
+		r.badParam = t[3] != "ok"
 		if t[4] == "1" {
 			m.SecureError = network.SecureErrorInvalid
 		}
@@ -679,12 +735,16 @@ func c32GenSig(g *Gen, k int, content string, mutate bool) string {
 	return fmt.Sprintf("g%d.%s.%s", k, content, form)
 }
 
+func c32BadParam(g *Gen) string {
+	return []string{"bad", "z0", "z0", "oc", "xp", "yp", "sm", "c2"}[g.Intn(8)]
+}
+
 func c32GenSecReq(g *Gen) string {
 	suites := []string{"1", "3", "3,1", "1,3", "2", "2,1", "2,3", "0", "_", "7,3", "0,1"}[g.Intn(11)]
 	aeads := []string{"1", "2", "3", "1,2,3", "_", "0", "9", "9,2", "0,3"}[g.Intn(9)]
 	param := "ok"
-	if g.Intn(10) == 0 {
-		param = "bad"
+	if g.Intn(6) == 0 {
+		param = c32BadParam(g)
 	}
 	return fmt.Sprintf("secreq %s %s %s", suites, aeads, param)
 }
@@ -693,8 +753,8 @@ func c32GenSecResp(g *Gen) string {
 	suite := g.Pick(1, 1, 1, 3, 3, 2, 0, 7)
 	aead := g.Pick(0, 1, 2, 3, 9)
 	param, e := "ok", 0
-	if g.Intn(10) == 0 {
-		param = "bad"
+	if g.Intn(6) == 0 {
+		param = c32BadParam(g)
 	}
 	if g.Intn(12) == 0 {
 		e = 1
@@ -748,11 +808,16 @@ func c32GenInterleaved(g *Gen) {
 	for i := 0; i < n; i++ {
 		ins[i] = g.Intn(2)
 	}
+	// sometimes every session gets the same attacker-chosen (invalid) SecureParam
+	prm := "ok"
+	if g.Intn(4) == 0 {
+		prm = c32BadParam(g)
+	}
 	sec := func(i int) {
 		if ins[i] == 1 {
-			g.Emit("secreq %s %s ok", []string{"1", "3"}[g.Intn(2)], []string{"1", "2", "3"}[g.Intn(3)])
+			g.Emit("secreq %s %s %s", []string{"1", "3"}[g.Intn(2)], []string{"1", "2", "3"}[g.Intn(3)], prm)
 		} else {
-			g.Emit("secresp %d %d ok 0", g.Pick(1, 3), g.Pick(1, 2, 3))
+			g.Emit("secresp %d %d %s 0", g.Pick(1, 3), g.Pick(1, 2, 3), prm)
 		}
 	}
 	sig := func(i, key int, content string) {
